@@ -33,8 +33,16 @@ def register(db):
         # ValueError/IndexError/KeyError: artefacts of abstracting the shape of iterparse elements and of the
         # objects list (start-ns payloads are 2-tuples, objects entries are pairs) - assumed not to occur
         raises={**ALLOWED, "ValueError": True, "IndexError": True, "KeyError": True},
-        loops=[Loop(invariants=[], header="context", modifies=["element_ns_map"], vars={"element_ns_map": "dict[u:Any|None,u:Any]"})],
-        properties=P + ["C08"],
+        loops=[Loop(invariants=[], header="context", modifies=["element_ns_map"], vars={"element_ns_map": "dict[u:Any|None,u:Any]"},
+                    step=[
+                        # C09: the in-scope map of an element is its parent's map plus *every* declaration the element carries
+                        ("every-declaration-of-the-element-is-collected",
+                         "implies(event == 'start-ns', prefix in element_ns_map and element_ns_map[prefix] == uri)"),
+                        ("declarations-are-handed-over-with-the-start-event-and-reset",
+                         "implies(event == 'start', len(element_ns_map) == 0 and called('XmlEventHandler.merge_parent_namespaces') == 1 "
+                         "and called('NodeParserObj.start') == 1)"),
+                    ])],
+        properties=P + ["C08", "C09"],
         note="a well-formedness error detected by expat after the root element is delivered by the event iterator: the loop must drain it",
     ))
     # ------------------------------------------------------------------ union node: recorded events keep each element's own scope
